@@ -150,6 +150,11 @@ pub trait Scenario: Sync + Send {
     fn stack_size(&self) -> usize {
         8 << 20
     }
+    /// the code under test may abort the process (stack overflow, allocation failure):
+    /// such checks run in a supervised child process with a breadcrumb per worker
+    fn may_abort(&self) -> bool {
+        false
+    }
 }
 
 /// normalise a panic message / location for use in signatures
